@@ -715,6 +715,46 @@ def register_read(R):
             out.append(z3.ForAll([j], z3.Implies(z3.And(j >= 0, j < zint(df.n)), z3.Select(df.cols[c].arr, j) == field(0, LINE(f, RLINE(f, j)), NCOLS.index(c)))))
         return z3.And(*out)
 
+    def post_repaired(which):
+        """C18: a root repair returns a single-rooted table that keeps the first root, every original edge and every node attribute
+        (ids / parent ids re-based on the first root's id when reset_index is on)"""
+        def f(E, v, o):
+            p = parsed(E)
+            if p is None:
+                return False
+            if o["sort_nodes"] or not (calls(E, "mark_roots_as_somas_") or calls(E, "link_roots_to_nearest_")):
+                return True
+            df, _ = v["result"]
+            d0 = p["df0"]
+            n = zint(d0.n)
+            key = ("first-root-of-the-parsed-table", d0.cols[names.pid].arr.get_id())
+            if key not in E.ghost:
+                E.ghost[key] = (K18._first_root(E, d0), d0)
+            r0 = E.ghost[key][0]
+            sel = z3.Select
+            shift = sel(d0.cols[names.id].arr, r0) if o["reset_index"] else z3.IntVal(0)
+            x = z3.Int("x02")
+            R_ = z3.And(x >= 0, x < n)
+            P0, P1 = d0.cols[names.pid].arr, df.cols[names.pid].arr
+            if which == "first-root-kept":
+                return z3.And(zint(df.n) == n, sel(P1, r0) == -1)
+            if which == "no-other-root":
+                # re-basing maps the id (first root's id - 1) to the marker -1 (DESIGN 9.3, recorded observation): "no other root" is claimed
+                # for files in which no row carries that id, e.g. whenever the first root carries the smallest id
+                hyp = z3.ForAll([x], z3.Implies(R_, sel(d0.cols[names.id].arr, x) != shift - 1)) if o["reset_index"] else z3.BoolVal(True)
+                return z3.Implies(hyp, z3.ForAll([x], z3.Implies(z3.And(R_, x != r0), sel(P1, x) != -1)))
+            if which == "every-original-edge-kept":
+                return z3.ForAll([x], z3.Implies(z3.And(R_, sel(P0, x) != -1), sel(P1, x) == sel(P0, x) - shift))
+            if which == "ids-and-attributes-kept":
+                out = [z3.ForAll([x], z3.Implies(R_, sel(df.cols[names.id].arr, x) == sel(d0.cols[names.id].arr, x) - shift))]
+                for c in NCOLS:
+                    if c not in (names.id, names.pid):
+                        out.append(z3.ForAll([x], z3.Implies(R_, sel(df.cols[c].arr, x) == sel(d0.cols[c].arr, x))))
+                return z3.And(*out)
+            raise KeyError(which)
+
+        return f
+
     def may_raise(E, v, o):
         f = v["swc_file"].z
         j = z3.Int(fresh_name("j"))
@@ -756,6 +796,10 @@ def register_read(R):
             ("sort-nodes-else-reset-index-else-neither", site(post_renumber)),
             ("no-other-call-touches-the-table(warnings-only-warn)", site(post_nothing_else)),
             ("attributes-are-what-the-rows-say", site(post_attributes)),
+            ("root-repair/first-root-kept", site(post_repaired("first-root-kept"))),
+            ("root-repair/no-other-root", site(post_repaired("no-other-root"))),
+            ("root-repair/every-original-edge-kept", site(post_repaired("every-original-edge-kept"))),
+            ("root-repair/ids-and-attributes-kept", site(post_repaired("ids-and-attributes-kept"))),
         ],
         notes="file abstract (see parse_swc); all 16 combinations of fix_roots x sort_nodes x reset_index as variants; "
               "precondition: the file has a row whose parent is -1 (reset_index_/mark_roots_as_somas_ need a root)",
@@ -797,14 +841,16 @@ def register_read(R):
         FROM_SWC,
         prop="C02",
         setup=from_setup,
-        requires=[("file-has-a-root-row", pre_root), ("row-ids-are-unsigned(regex fact: the id group is [0-9]+)", pre_ids)],
+        requires=[("file-has-a-root-row", pre_root), ("row-ids-are-unsigned(regex fact: the id group is [0-9]+)", pre_ids),
+                  ("every-parent-id-names-a-row(file)", lambda E, v, o: K18.forest_pre(E, file_table(E, v["swc_file"].z), "every-parent-id-names-a-row"))],
         raises={"ValueError": ("only-when-the-source-is-bad-or-unreadable", lambda E, v, o: bad_source(v))},
         ensures=[
             ("a-tree-is-returned-only-for-a-clean-readable-source(no-error-swallowed)", lambda E, v, o: z3.Not(bad_source(v))),
             ("tree-is-built-from-exactly-the-table-and-comments-read", from_built),
             ("something-is-returned", lambda E, v, o: v["result"] is not None),
         ],
-        notes="any exception class read_swc may raise (ValueError for a bad file, OSError for an unreadable one) must leave as ValueError",
+        notes="any exception class read_swc may raise (ValueError for a bad file, OSError for an unreadable one) must leave as ValueError; "
+              "a parent id that names no row is outside the domain (the real code leaves with ValueError wrapping the KeyError of the connectivity check)",
     )
 
 
